@@ -148,9 +148,52 @@ pub fn parse_corpus_line(l: &str) -> Option<Case> {
     })
 }
 
+/// implementation-only oracle for the crop helper behind `Decoder::read_cube_map` (ImageViewMut::cropped_data): faces
+/// read into a view with padded rows, or into a crop of a larger view, land exactly where they land in a contiguous
+/// view, nothing outside the addressed rows changes, nothing panics
+fn cube_into_views(out: &mut Out, rng: &mut Rng) {
+    use dds::header::Header;
+    use dds::{Decoder, Format};
+    for (fw, fh) in [(4u32, 4u32), (3, 5), (6, 2), (1, 1)] {
+        let header = Header::new_cube_map(fw, fh, Format::R8G8B8A8_UNORM);
+        let mut file = Vec::new();
+        header.write(&mut file).unwrap();
+        for _ in 0..(6 * fw * fh * 4) { file.push(rng.next() as u8 | 1); }
+        let (iw, ih) = (fw * 4, fh * 3);
+        let row = iw as usize * 4;
+        let mut reference = vec![0u8; row * ih as usize];
+        let ok = catch(|| Decoder::new(std::io::Cursor::new(&file[..])).unwrap().read_cube_map(ImageViewMut::new(&mut reference, Size::new(iw, ih), ColorFormat::RGBA_U8).unwrap()));
+        if !matches!(ok, Some(Ok(()))) { println!("IMPL-VIOLATION read_cube_map into a contiguous view failed: faces {fw}x{fh}"); continue; }
+        for variant in 0..4 {
+            // 0, 1: padded rows; 2, 3: a crop (x0, y0) of a larger view
+            let (pad, x0, y0) = match variant { 0 => (4usize, 0u32, 0u32), 1 => (4 * (1 + rng.below(9) as usize), 0, 0), 2 => (0, 1 + rng.below(3) as u32, 0), _ => (8, 1 + rng.below(3) as u32, 1 + rng.below(3) as u32) };
+            let (pw, ph) = (iw + x0 + if x0 > 0 { 2 } else { 0 }, ih + y0 + if y0 > 0 { 1 } else { 0 });
+            let pitch = pw as usize * 4 + pad;
+            let mut buf = vec![0u8; pitch * (ph as usize - 1) + pw as usize * 4];
+            let res = catch(|| {
+                let parent = ImageViewMut::new_with(&mut buf, pitch, Size::new(pw, ph), ColorFormat::RGBA_U8).unwrap();
+                let view = if (x0, y0, pw, ph) == (0, 0, iw, ih) { parent } else { parent.cropped(Offset::new(x0, y0), Size::new(iw, ih)) };
+                Decoder::new(std::io::Cursor::new(&file[..])).unwrap().read_cube_map(view)
+            });
+            out.count("cube_view_oracle");
+            match res {
+                Some(Ok(())) => {}
+                other => { println!("IMPL-VIOLATION read_cube_map into a non-contiguous view (faces {fw}x{fh}, pitch {pitch}, crop at {x0},{y0}) {}", if other.is_none() { "panicked" } else { "failed" }); continue; }
+            }
+            for y in 0..ph as usize { for xb in 0..pitch.min(buf.len() - y * pitch) {
+                let inside = y >= y0 as usize && y < (y0 + ih) as usize && xb >= x0 as usize * 4 && xb < (x0 + iw) as usize * 4;
+                let got = buf[y * pitch + xb];
+                let want = if inside { reference[(y - y0 as usize) * row + xb - x0 as usize * 4] } else { 0 };
+                if got != want { println!("IMPL-VIOLATION read_cube_map into a non-contiguous view differs from the contiguous read at row {y} byte {xb} (faces {fw}x{fh}, pitch {pitch}, crop at {x0},{y0})"); return; }
+            } }
+        }
+    }
+}
+
 pub fn run(out: &mut Out, tier: &str, seed: u64, corpus: Option<&str>) {
     let thorough = tier == "thorough";
     let mut rng = Rng::new(seed);
+    if tier != "replay" { cube_into_views(out, &mut rng); }
     let mut buf = vec![0u8; BIG];
     // corpus first
     if let Some(p) = corpus {
